@@ -26,11 +26,26 @@ func calleeID(cc *ssa.CallCommon) string {
 	case *ssa.Builtin:
 		return "builtin " + v.Name()
 	case *ssa.Function:
-		return shortPkg(v.String())
+		return trimInst(shortPkg(v.String()))
 	case *ssa.MakeClosure:
-		return shortPkg(v.Fn.(*ssa.Function).String())
+		return trimInst(shortPkg(v.Fn.(*ssa.Function).String()))
 	}
 	return "dynamic"
+}
+
+// trimInst removes the type-argument suffix of an instantiated generic ("...CompareAndSwap[net.Conn]").
+func trimInst(id string) string {
+	if !strings.HasSuffix(id, "]") {
+		return id
+	}
+	dot := strings.LastIndex(id, ").")
+	if dot < 0 {
+		dot = strings.LastIndex(id, ".")
+	}
+	if br := strings.Index(id[dot+1:], "["); br >= 0 {
+		return id[:dot+1+br]
+	}
+	return id
 }
 
 func staticCallee(cc *ssa.CallCommon) *ssa.Function {
